@@ -22,6 +22,7 @@ import z3
 
 from ..core import Eq, Fail, Note, _new_result, _violation
 from .. import pat, ops, bv, sym
+from .. import coexist
 from ..kapi import get_alg, mv, coeffs, mv_eq_claims, eq_claims, kmap
 from ..ref import popcount
 
@@ -99,10 +100,14 @@ def cases(tier, seed):
         cfg, dd = pat.random_cfg(rng)
         cfg.pop('wrapper', None)
         add(rng.choice(['addsub', 'addsub', 'unary', 'morphism']), cfg, pat.random_pattern(rng, dd), pat.random_pattern(rng, dd))
+    # algebras coexisting in one process (shared blade names, different numbering / metric / options)
+    out += coexist.cases(tier, seed, 304, n_quick=20)
     return out
 
 
 def run_case(desc, V):
+    if desc['kind'] == 'coexist':
+        return coexist.run(desc, V, binary=('add', 'sub'), unary=('neg', 'reverse', 'involute', 'conjugate'))
     alg = get_alg(desc['cfg'])
     km = kmap(alg)
     R = km.ref
